@@ -10,6 +10,10 @@ TB = ("Trusted base: the chain model of DESIGN.md section 3.1 (bank, staking wit
       "budget F, principals and amount lattice as reported in the evidence file; envelope of DESIGN.md section 4.")
 
 CLAIMED = {
+ "C18": ("5 (C18)", "Per token (bSei on cw20-legacy, stSei on cw20-base 0.16) on the integrated deployment: start states are all instantiate messages whose initial_balances is a list of length 0..=3 over {alice,bob} x {0,1,5} (259 messages, repeated addresses included), explored 2-3 steps; plus every sequence of <= D (4 quick, 5 thorough) calls of every cw20 entry point by holders, a spender, the hub and strangers with amounts 0/1/2/all/all+1 and every expiration shape around the current block. State oracle: sum of all account balances = total supply, minter = hub, Allowance query <= owner's grants (ledger in the state key). Step oracles: supply changes only by the minted/burned amounts, Mint/Burn only by the hub, allowance spends within the unexpired grant and debited exactly, only the owner raises an allowance, every stSei burn and bSei allowance burn executes a hub CheckSlashing in the same transaction.",
+         "explicit-state BFS of the real token contracts over instantiate shapes and entry points, allowance reference ledger"),
+ "C19": ("5 (C19)", "Hub-core exploration (D=4 quick, 5 thorough) with reward accrual of 1..4e17 coins of either denom on either validator under 2 (quick) / 5 (thorough) keeper-rate x price configurations; UpdateGlobalIndex by the updater and the one issued by the registry during RemoveValidator are available in every state; every execution is checked against the bank, staking and distribution ledgers (all rewards withdrawn, nothing pending or left in the dispatcher, hub liquid balance / token balances / supplies / unbond claims untouched, keeper gets floor(share x rate), delegated grows by the re-bonded amount, stSei rate = (pool + re-bonded)/claims exactly, bSei rate untouched, bSei holders' exact claimable total grows by the delivered coins within dust). Failures through the zero-coin sends of F1 are known findings.",
+         "explicit-state BFS of the real contracts with reward-accrual events, ledger step oracle on every index update"),
  "C14": ("5 (C14)", "Every sequence of <= D (4 quick, 5 thorough) bSei operations (mint, transfers incl. to self, send-to-hub unbond/convert, allowance-based transfer/send/burn), reward deliveries (7, 1000; and 1, 1e18 against a 9e17 holder) and claims by 2-3 holders plus a spender, including deliveries while nobody holds bSei. In every distinct state the exact accrued reward of every holder (Holders + State queries, 1e-18 fixed point, 256-bit) is summed and compared with the recorded and the actual reward balance (solvent, recorded <= actual, stranded <= updates + 1 units, claimed <= delivered); every claim must pay exactly the whole-unit part, keep the fraction and fail only when less than one unit accrued.",
          "explicit-state BFS of the real contracts, exact fixed-point recomputation in every state"),
  "C15": ("5 (C15)", "Four exhaustive bounded explorations on the real contracts: (i) a reference accrual ledger carried in the state key, updated only at deliveries by balance x distributed / total, bounds every holder's accrued + claimed reward to within a few 1e-18 units; (ii) frame oracle: every non-delivery transition leaves every holder's exact accrued reward unchanged (own claim excepted), so rewards never travel with tokens and late tokens earn nothing; (iii) commutation diamonds: in every state to depth 2/3 every pair of enabled operations of different actors is executed in both orders on clones and the reward contract's storage must be byte-identical; (iv) product exploration: two worlds (alice's holding in one account / split over two) explored in lock-step to depth 5-7 under identical operations of everyone else, accruals must be equal.",
